@@ -169,7 +169,10 @@ W.axioms += [
 # induction lemma (not provable by the SMT solver; proved in Lean: bridge/runn.lean `runN_empty_absorbing`): once no state is left, none comes back
 RUNN_EMPTY = ForAll([T_, I_, W_, i_, j_], Implies(And(0 <= i_, i_ <= j_, j_ <= Length(W_), ForAll([x], Not(Select(RunN(T_, I_, W_, i_), x)))),
                                                   ForAll([x], Not(Select(RunN(T_, I_, W_, j_), x)))))
-W.axioms.append(RUNN_EMPTY)
+def runn_empty_instance(Tm, Im, Wm, i):
+    """instance of the lemma at the position where the code gives up (listed in evidence as a Lean-proved hint)"""
+    return Implies(And(0 <= i, i <= Length(Wm), ForAll([x], Not(Select(RunN(Tm, Im, Wm, i), x)))),
+                   ForAll([x], Not(Select(RunN(Tm, Im, Wm, Length(Wm)), x))))
 W.lemmas = {'runN_empty_absorbing': 'bridge/runn.lean'}
 def inherit(cls, base_key, **over):
     """a method inherited unchanged: the same contract with the receiver type of the subclass"""
@@ -189,6 +192,7 @@ def WFDv(A):
                ForAll([p, q], Implies(And(A.I[p], A.I[q]), p == q)))
 W.contract(Contract('DFA.accepts', [('self', DFA), ('word', SeqSy)], ret=TBool, requires=lambda o: WFDv(o.self), ensures=accN_post,
     locals={'current_state': St},
+    hints=lambda o, e, r: ([runn_empty_instance(o.self.T.term, o.self.I.term, o.word.term, e.get('$done0').term)] if e.get('$done0') is not None else []),
     loops={'0': lambda e, i: ForAll([x], Select(RunN(e.self.T.term, e.self.I.term, e.word.term, i.term), x) ==
                                             And(e.current_state.term != NONE_ST, x == e.current_state.term))}))
 W.contract(Contract('NFA.is_deterministic', [('self', NFA)], ret=TBool,
